@@ -1,0 +1,338 @@
+//go:build verif
+
+package pfcp
+
+// Machine-checked contracts (comment-only; read by /verif/engine, never compiled into the binary).
+
+// ---------------------------------------------------------------------------------------------
+// SEID table (C04): view  live : SEID -> *Sess  =  { i+1 -> sess[i] | sess[i] != nil }
+
+//@ pure func live(n *LocalNode, id uint64) bool = id != 0 && id <= uint64(len(n.sess)) && n.sess[id-1] != nil
+
+//@ pred lnodeWF(n *LocalNode) =
+//@      (forall i int :: 0 <= i && i < len(n.sess) && n.sess[i] != nil ==> n.sess[i].LocalID == uint64(i) + 1) &&
+//@      (forall j int :: 0 <= j && j < len(n.free) ==> 1 <= n.free[j] && n.free[j] <= uint64(len(n.sess)) && n.sess[n.free[j]-1] == nil) &&
+//@      (forall j int; k int :: 0 <= j && j < k && k < len(n.free) ==> n.free[j] != n.free[k])
+
+//@ func (n *LocalNode) Sess(lSeid uint64) (sess *Sess, err error)
+//@   requires n != nil && lnodeWF(n)
+//@   ensures [found]  (err == nil) == live(n, lSeid)
+//@   ensures [which]  err == nil ==> sess == n.sess[lSeid-1] && sess.LocalID == lSeid
+//@   ensures [errnil] err != nil ==> sess == nil
+//@   modifies nothing
+//@   serves C04 C07
+//@   cases zero: lSeid == 0 | low: 0 < lSeid && lSeid < 1<<63 | edge: lSeid == 1<<63 | hi: lSeid > 1<<63
+
+//@ pred sessLinked(n *LocalNode) =
+//@      forall i int :: 0 <= i && i < len(n.sess) && n.sess[i] != nil ==> n.sess[i].rnode != nil && n.sess[i].rnode.addr != nil
+
+//@ func (n *LocalNode) RemoteSess(rSeid uint64, addr net.Addr) (sess *Sess, err error)
+//@   requires n != nil && lnodeWF(n) && sessLinked(n) && addr != nil
+//@   ensures [hit]  err == nil ==> sess != nil && live(n, sess.LocalID) && n.sess[sess.LocalID-1] == sess &&
+//@                    sess.RemoteID == rSeid && addrStr(sess.rnode.addr) == addrStr(addr)
+//@   ensures [miss] err != nil ==> sess == nil &&
+//@                    (forall j int :: 0 <= j && j < len(n.sess) && n.sess[j] != nil ==>
+//@                        !(n.sess[j].RemoteID == rSeid && addrStr(n.sess[j].rnode.addr) == addrStr(addr)))
+//@   modifies nothing
+//@   serves C04 C05 C07
+//@   loop range(n.sess):
+//@     invariant [scanned] forall j int :: 0 <= j && j < idx && n.sess[j] != nil ==>
+//@                        !(n.sess[j].RemoteID == rSeid && addrStr(n.sess[j].rnode.addr) == addrStr(addr))
+
+//@ func (n *LocalNode) NewSess(rSeid uint64, qlen int) (s *Sess)
+//@   requires n != nil && lnodeWF(n)
+//@   ensures [fresh]  fresh(s) && s.RemoteID == rSeid && s.qlen == qlen
+//@   ensures [maps]   fresh(s.PDRIDs) && fresh(s.FARIDs) && fresh(s.QERIDs) && fresh(s.URRIDs) && fresh(s.BARIDs) && fresh(s.q)
+//@   ensures [empty]  len(s.PDRIDs) == 0 && len(s.FARIDs) == 0 && len(s.QERIDs) == 0 && len(s.URRIDs) == 0 && len(s.BARIDs) == 0 && len(s.q) == 0
+//@   ensures [id]     s.LocalID != 0 && (forall id uint64 :: id == s.LocalID ==> !old(live(n, id))) && live(n, s.LocalID) && n.sess[s.LocalID-1] == s
+//@   ensures [others] forall id uint64 :: id != s.LocalID ==> (live(n, id) == old(live(n, id))) && (old(live(n, id)) ==> n.sess[id-1] == old(n.sess[id-1]))
+//@   ensures [wf]     lnodeWF(n)
+//@   modifies n.sess, n.free, n.sess[_]
+//@   serves C04 C05 C13
+//@   cases reuse: len(n.free) > 0 | grow: len(n.free) == 0
+
+// ---------------------------------------------------------------------------------------------
+// Session rule bookkeeping (C01, C05).  Ghost sets DP / CREATED are declared with the Driver contracts in
+// internal/forwarder; kinds: 1 PDR, 2 FAR, 3 QER, 4 URR, 5 BAR.
+
+//@ pred sessWF(s *Sess) = s != nil && s.PDRIDs != nil && s.FARIDs != nil && s.QERIDs != nil && s.URRIDs != nil && s.BARIDs != nil && s.q != nil &&
+//@      s.FARIDs != s.QERIDs && s.rnode != nil && s.rnode.driver != nil &&
+//@      (forall p uint16 :: p in s.PDRIDs ==> s.PDRIDs[p] != nil) &&
+//@      (forall u uint32 :: u in s.URRIDs ==> s.URRIDs[u] != nil)
+
+// book(s): the session's bookkeeping covers everything installed under its SEID (this is why ids are recorded
+// before the driver call), and holds only ids for which a Create call reached the data plane.
+//@ pred book(s *Sess) =
+//@      (forall k RuleKey :: k in DP && k.seid == s.LocalID ==> 1 <= k.kind && k.kind <= 5) &&
+//@      (forall k RuleKey :: k in DP && k.seid == s.LocalID && k.kind == 1 ==> k.id <= 0xffff && uint16(k.id) in s.PDRIDs) &&
+//@      (forall k RuleKey :: k in DP && k.seid == s.LocalID && k.kind == 2 ==> k.id <= 0xffffffff && uint32(k.id) in s.FARIDs) &&
+//@      (forall k RuleKey :: k in DP && k.seid == s.LocalID && k.kind == 3 ==> k.id <= 0xffffffff && uint32(k.id) in s.QERIDs) &&
+//@      (forall k RuleKey :: k in DP && k.seid == s.LocalID && k.kind == 4 ==> k.id <= 0xffffffff && uint32(k.id) in s.URRIDs) &&
+//@      (forall k RuleKey :: k in DP && k.seid == s.LocalID && k.kind == 5 ==> k.id <= 0xff && uint8(k.id) in s.BARIDs) &&
+//@      (forall id uint16 :: id in s.PDRIDs ==> RuleKey(s.LocalID, 1, uint64(id)) in CREATED) &&
+//@      (forall id uint32 :: id in s.FARIDs ==> RuleKey(s.LocalID, 2, uint64(id)) in CREATED) &&
+//@      (forall id uint32 :: id in s.QERIDs ==> RuleKey(s.LocalID, 3, uint64(id)) in CREATED) &&
+//@      (forall id uint32 :: id in s.URRIDs ==> RuleKey(s.LocalID, 4, uint64(id)) in CREATED) &&
+//@      (forall id uint8 :: id in s.BARIDs ==> RuleKey(s.LocalID, 5, uint64(id)) in CREATED)
+
+//@ func (s *Sess) CreateFAR(req *ie.IE) (err error)
+//@   requires sessWF(s) && book(s) && req != nil
+//@   ensures [book]  book(s)
+//@   ensures [wf]    sessWF(s)
+//@   ensures [rec]   ok(req.FARID()) ==> val(req.FARID()) in s.FARIDs
+//@   ensures [mono]  forall id uint32 :: id in old(s.FARIDs) ==> id in s.FARIDs
+//@   ensures [isol]  forall k RuleKey :: k.seid != s.LocalID ==> ((k in DP) == (k in old(DP)))
+//@   ensures [sup]   forall k RuleKey :: k in old(DP) ==> k in DP
+//@   ensures [noid]  !ok(req.FARID()) ==> err != nil && DP == old(DP) && CREATED == old(CREATED)
+//@   modifies s.FARIDs[_], DP, CREATED
+//@   serves C01 C05 C07
+//@   at call CreateFAR:
+//@     assert [seid]     arg0 == s.LocalID && arg1 == req
+//@     assert [recorded] val(req.FARID()) in s.FARIDs
+
+//@ func (s *Sess) UpdateFAR(req *ie.IE) (err error)
+//@   requires sessWF(s) && book(s) && req != nil
+//@   modifies nothing
+//@   serves C01 C05 C07
+//@   at call UpdateFAR:
+//@     assert [seid] arg0 == s.LocalID && arg1 == req
+
+//@ func (s *Sess) RemoveFAR(req *ie.IE) (err error)
+//@   requires sessWF(s) && book(s) && req != nil
+//@   ensures [book]  book(s)
+//@   ensures [wf]    sessWF(s)
+//@   ensures [gone]  ok(req.FARID()) && val(req.FARID()) in old(s.FARIDs) ==> !(RuleKey(s.LocalID, 2, uint64(val(req.FARID()))) in DP)
+//@   ensures [sub]   forall k RuleKey :: k in DP ==> k in old(DP)
+//@   ensures [isol]  forall k RuleKey :: k.seid != s.LocalID ==> ((k in DP) == (k in old(DP)))
+//@   ensures [keys]  forall id uint32 :: id in s.FARIDs ==> id in old(s.FARIDs)
+//@   ensures [del]   err == nil ==> !(val(req.FARID()) in s.FARIDs)
+//@   ensures [keep]  err != nil && ok(req.FARID()) ==> (forall id uint32 :: id in old(s.FARIDs) ==> id in s.FARIDs)
+//@   modifies s.FARIDs[_], DP
+//@   serves C01 C05 C07
+//@   at call RemoveFAR:
+//@     assert [seid] arg0 == s.LocalID && arg1 == req
+
+//@ func (s *Sess) CreateQER(req *ie.IE) (err error)
+//@   requires sessWF(s) && book(s) && req != nil
+//@   ensures [book]  book(s)
+//@   ensures [wf]    sessWF(s)
+//@   ensures [rec]   ok(req.QERID()) ==> val(req.QERID()) in s.QERIDs
+//@   ensures [mono]  forall id uint32 :: id in old(s.QERIDs) ==> id in s.QERIDs
+//@   ensures [isol]  forall k RuleKey :: k.seid != s.LocalID ==> ((k in DP) == (k in old(DP)))
+//@   ensures [sup]   forall k RuleKey :: k in old(DP) ==> k in DP
+//@   ensures [noid]  !ok(req.QERID()) ==> err != nil && DP == old(DP) && CREATED == old(CREATED)
+//@   modifies s.QERIDs[_], DP, CREATED
+//@   serves C01 C05 C07
+//@   at call CreateQER:
+//@     assert [seid]     arg0 == s.LocalID && arg1 == req
+//@     assert [recorded] val(req.QERID()) in s.QERIDs
+
+//@ func (s *Sess) UpdateQER(req *ie.IE) (err error)
+//@   requires sessWF(s) && book(s) && req != nil
+//@   modifies nothing
+//@   serves C01 C05 C07
+//@   at call UpdateQER:
+//@     assert [seid] arg0 == s.LocalID && arg1 == req
+
+//@ func (s *Sess) RemoveQER(req *ie.IE) (err error)
+//@   requires sessWF(s) && book(s) && req != nil
+//@   ensures [book]  book(s)
+//@   ensures [wf]    sessWF(s)
+//@   ensures [gone]  ok(req.QERID()) && val(req.QERID()) in old(s.QERIDs) ==> !(RuleKey(s.LocalID, 3, uint64(val(req.QERID()))) in DP)
+//@   ensures [sub]   forall k RuleKey :: k in DP ==> k in old(DP)
+//@   ensures [isol]  forall k RuleKey :: k.seid != s.LocalID ==> ((k in DP) == (k in old(DP)))
+//@   ensures [keys]  forall id uint32 :: id in s.QERIDs ==> id in old(s.QERIDs)
+//@   ensures [del]   err == nil ==> !(val(req.QERID()) in s.QERIDs)
+//@   ensures [keep]  err != nil && ok(req.QERID()) ==> (forall id uint32 :: id in old(s.QERIDs) ==> id in s.QERIDs)
+//@   modifies s.QERIDs[_], DP
+//@   serves C01 C05 C07
+//@   at call RemoveQER:
+//@     assert [seid] arg0 == s.LocalID && arg1 == req
+
+//@ func (s *Sess) CreateBAR(req *ie.IE) (err error)
+//@   requires sessWF(s) && book(s) && req != nil
+//@   ensures [book]  book(s)
+//@   ensures [wf]    sessWF(s)
+//@   ensures [rec]   ok(req.BARID()) ==> val(req.BARID()) in s.BARIDs
+//@   ensures [mono]  forall id uint8 :: id in old(s.BARIDs) ==> id in s.BARIDs
+//@   ensures [isol]  forall k RuleKey :: k.seid != s.LocalID ==> ((k in DP) == (k in old(DP)))
+//@   ensures [sup]   forall k RuleKey :: k in old(DP) ==> k in DP
+//@   ensures [noid]  !ok(req.BARID()) ==> err != nil && DP == old(DP) && CREATED == old(CREATED)
+//@   modifies s.BARIDs[_], DP, CREATED
+//@   serves C01 C05 C07
+//@   at call CreateBAR:
+//@     assert [seid]     arg0 == s.LocalID && arg1 == req
+//@     assert [recorded] val(req.BARID()) in s.BARIDs
+
+//@ func (s *Sess) UpdateBAR(req *ie.IE) (err error)
+//@   requires sessWF(s) && book(s) && req != nil
+//@   modifies nothing
+//@   serves C01 C05 C07
+//@   at call UpdateBAR:
+//@     assert [seid] arg0 == s.LocalID && arg1 == req
+
+//@ func (s *Sess) RemoveBAR(req *ie.IE) (err error)
+//@   requires sessWF(s) && book(s) && req != nil
+//@   ensures [book]  book(s)
+//@   ensures [wf]    sessWF(s)
+//@   ensures [gone]  ok(req.BARID()) && val(req.BARID()) in old(s.BARIDs) ==> !(RuleKey(s.LocalID, 5, uint64(val(req.BARID()))) in DP)
+//@   ensures [sub]   forall k RuleKey :: k in DP ==> k in old(DP)
+//@   ensures [isol]  forall k RuleKey :: k.seid != s.LocalID ==> ((k in DP) == (k in old(DP)))
+//@   ensures [keys]  forall id uint8 :: id in s.BARIDs ==> id in old(s.BARIDs)
+//@   ensures [del]   err == nil ==> !(val(req.BARID()) in s.BARIDs)
+//@   ensures [keep]  err != nil && ok(req.BARID()) ==> (forall id uint8 :: id in old(s.BARIDs) ==> id in s.BARIDs)
+//@   modifies s.BARIDs[_], DP
+//@   serves C01 C05 C07
+//@   at call RemoveBAR:
+//@     assert [seid] arg0 == s.LocalID && arg1 == req
+
+// ---------------------------------------------------------------------------------------------
+// URR and PDR bookkeeping
+
+// A-IEWF: child lists of parsed IEs contain no nil entry (go-pfcp's parser never produces one).
+//@ pred ieWF(req *ie.IE) = req != nil && (forall j int :: 0 <= j && j < len(req.ChildIEs) ==> req.ChildIEs[j] != nil)
+
+//@ func (s *Sess) CreateURR(req *ie.IE) (err error)
+//@   requires sessWF(s) && book(s) && ieWF(req)
+//@   ensures [book]  book(s)
+//@   ensures [wf]    sessWF(s)
+//@   ensures [rec]   ok(req.URRID()) ==> val(req.URRID()) in s.URRIDs
+//@   ensures [mono]  forall id uint32 :: id in old(s.URRIDs) ==> id in s.URRIDs
+//@   ensures [isol]  forall k RuleKey :: k.seid != s.LocalID ==> ((k in DP) == (k in old(DP)))
+//@   ensures [sup]   forall k RuleKey :: k in old(DP) ==> k in DP
+//@   ensures [noid]  !ok(req.URRID()) ==> err != nil && DP == old(DP) && CREATED == old(CREATED)
+//@   ensures [start] ok(req.URRID()) ==> s.URRIDs[val(req.URRID())].SEQN == 0 && s.URRIDs[val(req.URRID())].refPdrNum == 0 &&
+//@                     !s.URRIDs[val(req.URRID())].removed && fresh(s.URRIDs[val(req.URRID())])
+//@   ensures [method] ok(req.URRID()) ==> s.URRIDs[val(req.URRID())].VOLUM == req.HasVOLUM() &&
+//@                     s.URRIDs[val(req.URRID())].DURAT == req.HasDURAT() && s.URRIDs[val(req.URRID())].EVENT == req.HasEVENT()
+//@   modifies s.URRIDs[_], DP, CREATED
+//@   serves C01 C05 C07 C10 C11
+//@   loop range(req.ChildIEs):
+//@     modifies nothing
+//@     invariant [minfo] mInfo != nil
+//@   at call CreateURR:
+//@     assert [seid]     arg0 == s.LocalID && arg1 == req
+//@     assert [recorded] val(req.URRID()) in s.URRIDs
+
+//@ func (s *Sess) UpdateURR(req *ie.IE) (usars []report.USAReport, err error)
+//@   requires sessWF(s) && book(s) && ieWF(req)
+//@   ensures [seqn]  forall u uint32 :: u in s.URRIDs ==> s.URRIDs[u].SEQN == old(s.URRIDs[u].SEQN) && s.URRIDs[u].refPdrNum == old(s.URRIDs[u].refPdrNum)
+//@   modifies s.URRIDs[_].DURAT, s.URRIDs[_].VOLUM, s.URRIDs[_].EVENT, s.URRIDs[_].MBQE, s.URRIDs[_].INAM, s.URRIDs[_].RADI, s.URRIDs[_].ISTM, s.URRIDs[_].MNOP
+//@   serves C01 C05 C07
+//@   loop range(req.ChildIEs):
+//@     modifies s.URRIDs[_].DURAT, s.URRIDs[_].VOLUM, s.URRIDs[_].EVENT, s.URRIDs[_].MBQE, s.URRIDs[_].INAM, s.URRIDs[_].RADI, s.URRIDs[_].ISTM, s.URRIDs[_].MNOP
+//@     invariant true
+//@   at call UpdateURR:
+//@     assert [seid] arg0 == s.LocalID && arg1 == req
+
+//@ func (s *Sess) RemoveURR(req *ie.IE) (usars []report.USAReport, err error)
+//@   requires sessWF(s) && book(s) && req != nil
+//@   ensures [book]  book(s)
+//@   ensures [wf]    sessWF(s)
+//@   ensures [gone]  ok(req.URRID()) && val(req.URRID()) in s.URRIDs ==> !(RuleKey(s.LocalID, 4, uint64(val(req.URRID()))) in DP)
+//@   ensures [sub]   forall k RuleKey :: k in DP ==> k in old(DP)
+//@   ensures [isol]  forall k RuleKey :: k.seid != s.LocalID ==> ((k in DP) == (k in old(DP)))
+//@   ensures [termr] err == nil ==> (forall j int :: 0 <= j && j < len(usars) ==> usars[j].USARTrigger.Flags & report.USAR_TRIG_TERMR != 0)
+//@   ensures [mark]  ok(req.URRID()) && val(req.URRID()) in s.URRIDs ==> s.URRIDs[val(req.URRID())].removed
+//@   ensures [errnil] err != nil ==> usars == nil
+//@   ensures [freshres] usars == nil || fresh(usars)
+//@   modifies s.URRIDs[_].removed, DP
+//@   serves C01 C05 C07 C12
+//@   loop range(usars):
+//@     modifies usars[_]
+//@     invariant [flagged] forall j int :: 0 <= j && j < idx ==> usars[j].USARTrigger.Flags & report.USAR_TRIG_TERMR != 0
+//@   at call RemoveURR:
+//@     assert [seid] arg0 == s.LocalID && arg1 == req
+
+//@ func (s *Sess) QueryURR(req *ie.IE) (usars []report.USAReport, err error)
+//@   requires sessWF(s) && book(s) && req != nil
+//@   ensures [immer] err == nil ==> (forall j int :: 0 <= j && j < len(usars) ==> usars[j].USARTrigger.Flags & report.USAR_TRIG_IMMER != 0)
+//@   ensures [errnil] err != nil ==> usars == nil
+//@   ensures [freshres] usars == nil || fresh(usars)
+//@   modifies nothing
+//@   serves C01 C05 C07 C12
+//@   loop range(usars):
+//@     modifies usars[_]
+//@     invariant [flagged] forall j int :: 0 <= j && j < idx ==> usars[j].USARTrigger.Flags & report.USAR_TRIG_IMMER != 0
+//@   at call QueryURR:
+//@     assert [seid] arg0 == s.LocalID && arg1 == val(req.URRID())
+
+//@ func (s *Sess) diassociateURR(urrid uint32) (usars []report.USAReport)
+//@   requires sessWF(s) && book(s)
+//@   ensures [absent]  !(urrid in s.URRIDs) ==> usars == nil
+//@   ensures [dec]     urrid in s.URRIDs && old(s.URRIDs[urrid].refPdrNum) > 0 ==> s.URRIDs[urrid].refPdrNum == old(s.URRIDs[urrid].refPdrNum) - 1
+//@   ensures [zero]    urrid in s.URRIDs && old(s.URRIDs[urrid].refPdrNum) == 0 ==> s.URRIDs[urrid].refPdrNum == 0
+//@   ensures [notlast] urrid in s.URRIDs && old(s.URRIDs[urrid].refPdrNum) != 1 ==> usars == nil
+//@   ensures [termr]   forall j int :: 0 <= j && j < len(usars) ==> usars[j].USARTrigger.Flags & report.USAR_TRIG_TERMR != 0
+//@   ensures [freshres] usars == nil || fresh(usars)
+//@   modifies s.URRIDs[urrid].refPdrNum
+//@   serves C01 C05 C07 C12
+//@   loop range(usars):
+//@     modifies usars[_]
+//@     invariant [flagged] forall j int :: 0 <= j && j < idx ==> usars[j].USARTrigger.Flags & report.USAR_TRIG_TERMR != 0
+//@   at call QueryURR:
+//@     assert [seid] arg0 == s.LocalID && arg1 == urrid
+//@     assert [last] old(s.URRIDs[urrid].refPdrNum) == 1
+
+//@ func (s *Sess) URRSeq(urrid uint32) (seq uint32)
+//@   requires sessWF(s)
+//@   ensures [known]   urrid in s.URRIDs ==> seq == old(s.URRIDs[urrid].SEQN) && s.URRIDs[urrid].SEQN == seq + 1
+//@   ensures [unknown] !(urrid in s.URRIDs) ==> seq == 0
+//@   modifies s.URRIDs[urrid].SEQN
+//@   serves C11 C05 C07
+
+// A-PDRID: the PDR id the session layer computes from a Create/Update PDR IE (last decodable PDR-ID child) is the
+// id under which the driver installs the rule (pdrIdOf, see internal/forwarder contracts).
+//@ func (s *Sess) CreatePDR(req *ie.IE) (err error)
+//@   requires sessWF(s) && book(s) && req != nil
+//@   ensures [book]  book(s)
+//@   ensures [wf]    sessWF(s)
+//@   ensures [isol]  forall k RuleKey :: k.seid != s.LocalID ==> ((k in DP) == (k in old(DP)))
+//@   ensures [sup]   forall k RuleKey :: k in old(DP) ==> k in DP
+//@   ensures [mono]  forall id uint16 :: id in old(s.PDRIDs) ==> id in s.PDRIDs
+//@   ensures [pf]    !ok(req.CreatePDR()) ==> err != nil && DP == old(DP) && CREATED == old(CREATED)
+//@   modifies s.PDRIDs[_], s.URRIDs[_].refPdrNum, DP, CREATED
+//@   serves C01 C05 C07
+//@   loop range(ies):
+//@     modifies s.URRIDs[_].refPdrNum, urrids[_]
+//@     invariant true
+//@   at call CreatePDR#2:
+//@     assume [A-PDRID]  pdrid == pdrIdOf(req)
+//@     assert [seid]     arg0 == s.LocalID && arg1 == req
+//@     assert [recorded] pdrid in s.PDRIDs
+
+//@ func (s *Sess) UpdatePDR(req *ie.IE) (usars []report.USAReport, err error)
+//@   requires sessWF(s) && book(s) && req != nil
+//@   ensures [book]  book(s)
+//@   ensures [wf]    sessWF(s)
+//@   ensures [dp]    DP == old(DP)
+//@   ensures [termr] forall j int :: 0 <= j && j < len(usars) ==> usars[j].USARTrigger.Flags & report.USAR_TRIG_TERMR != 0
+//@   modifies s.PDRIDs[_].RelatedURRIDs, s.URRIDs[_].refPdrNum
+//@   serves C01 C05 C07 C12
+//@   loop range(ies):
+//@     modifies newUrrids[_]
+//@     invariant true
+//@   loop range(pdrInfo.RelatedURRIDs):
+//@     modifies s.URRIDs[_].refPdrNum
+//@     invariant [termr] forall j int :: 0 <= j && j < len(usars) ==> usars[j].USARTrigger.Flags & report.USAR_TRIG_TERMR != 0
+//@   at call UpdatePDR#2:
+//@     assume [A-PDRID] pdrid == pdrIdOf(req)
+//@     assert [seid]    arg0 == s.LocalID && arg1 == req
+
+//@ func (s *Sess) RemovePDR(req *ie.IE) (usars []report.USAReport, err error)
+//@   requires sessWF(s) && book(s) && req != nil
+//@   ensures [book]  book(s)
+//@   ensures [wf]    sessWF(s)
+//@   ensures [gone]  ok(req.PDRID()) && val(req.PDRID()) in old(s.PDRIDs) ==> !(RuleKey(s.LocalID, 1, uint64(val(req.PDRID()))) in DP)
+//@   ensures [sub]   forall k RuleKey :: k in DP ==> k in old(DP)
+//@   ensures [isol]  forall k RuleKey :: k.seid != s.LocalID ==> ((k in DP) == (k in old(DP)))
+//@   ensures [keys]  forall id uint16 :: id in s.PDRIDs ==> id in old(s.PDRIDs)
+//@   ensures [del]   err == nil ==> !(val(req.PDRID()) in s.PDRIDs)
+//@   ensures [termr] forall j int :: 0 <= j && j < len(usars) ==> usars[j].USARTrigger.Flags & report.USAR_TRIG_TERMR != 0
+//@   modifies s.PDRIDs[_], s.URRIDs[_].refPdrNum, DP
+//@   serves C01 C05 C07 C12
+//@   loop range(pdrInfo.RelatedURRIDs):
+//@     modifies s.URRIDs[_].refPdrNum
+//@     invariant [termr] forall j int :: 0 <= j && j < len(usars) ==> usars[j].USARTrigger.Flags & report.USAR_TRIG_TERMR != 0
+//@   at call RemovePDR:
+//@     assert [seid] arg0 == s.LocalID && arg1 == req
